@@ -24,6 +24,7 @@ from ..flow import Sym, fpaths, attr_effects, allfacts
 from ..model import FuncInfo, attr_chain, norm, walk_no_nested
 from ..report import Checker
 from .forward import forward_sites_check, opaque_relay_check
+from .common import dict_iter
 from .c15 import body_or_chunks_check, content_length_check
 from .c03 import chunk_decoder_checks, completion_typestate_check
 
@@ -120,24 +121,35 @@ def run(ch: Checker) -> None:
                     comp = x
         if comp is not None:
             gen = comp.generators[0]
-            k = norm(gen.target)
-            if norm(gen.iter) not in ('self.headers', 'self.headers.keys()'):
+            di = dict_iter(gen.target, gen.iter, 'self.headers')
+            if di is None or di.get('snapshot') and False:
                 res['headers'] = 'header comprehension iterates %s' % norm(gen.iter)
-            if norm(comp.key) != 'self.headers[%s][0]' % k:
-                res['hname'] = 'header names are rebuilt as %s, not the original spelling self.headers[k][0]' % norm(comp.key)[:60]
+                di = {'key': norm(gen.target), 'value': None}
+            k, fv = di.get('key'), di.get('value')
+            names = {'self.headers[%s][0]' % k} if k else set()
+            values = {'self.headers[%s][1]' % k} if k else set()
+            if fv:
+                names.add('%s[0]' % fv)
+                values.add('%s[1]' % fv)
+            if norm(comp.key) not in names:
+                res['hname'] = 'header names are rebuilt as %s, not the original spelling (%s)' % (norm(comp.key)[:60], ' / '.join(sorted(names)))
             val = comp.value
             vtxt = norm(val)
             if isinstance(val, ast.IfExp):
                 # host override: original value unless (host given and name is host)
                 t = norm(val.test)
-                okv = (norm(val.body) == 'self.headers[%s][1]' % k and norm(val.orelse) == 'host' and 'host is None' in t and ".lower() != b'host'" in t) or \
-                      (norm(val.orelse) == 'self.headers[%s][1]' % k and norm(val.body) == 'host' and 'host is not None' in t and ".lower() == b'host'" in t)
+                is_host_name = any(('%s.lower() != b\'host\'' % nm) in t for nm in names | ({k} if k else set()))
+                is_host_name_pos = any(('%s.lower() == b\'host\'' % nm) in t for nm in names | ({k} if k else set()))
+                okv = (norm(val.body) in values and norm(val.orelse) == 'host' and 'host is None' in t and is_host_name) or \
+                      (norm(val.orelse) in values and norm(val.body) == 'host' and 'host is not None' in t and is_host_name_pos)
                 if not okv:
                     res['hvalue'] = 'header values are rebuilt as %s' % vtxt[:90]
-            elif vtxt != 'self.headers[%s][1]' % k:
+            elif vtxt not in values:
                 res['hvalue'] = 'header values are rebuilt as %s, not the original value' % vtxt[:60]
             conds = [norm(c_) for c_ in gen.ifs]
-            if conds != ['%s.lower() not in disable_headers' % k]:
+            colls = ['disable_headers'] + (['DEFAULT_DISABLE_HEADERS'] if f.get('disable_headers is None') is True else [])
+            okf = len(conds) == 1 and conds[0] in ['%s.lower() not in %s' % (nm, cl) for nm in (list(names) + ([k] if k else [])) for cl in colls]
+            if not okf:
                 res['filter'] = 'headers are filtered by %s (only `name.lower() not in disable_headers` may drop a header)' % conds
         else:
             # loop form: a dict filled inside `for ... in self.headers[.items()]` on this path
